@@ -5,7 +5,7 @@ MODULE = "StorageModel.Properties.C08"
 THEOREMS = ["table_is_expected", "delivery_is_expected", "events_exactly_once", "events_count",
             "constraint_posts_exactly_once", "events_final_state_create", "events_final_state_update",
             "events_last_state_delete", "child_change_parent_event", "plain_parent_no_child_event",
-            "rolled_back_no_events", "rejected_op_tx_fails", "commit_actions_once", "batch_runs_tx_complete"]
+            "rolled_back_no_events", "rejected_op_tx_fails", "commit_actions_once", "commit_actions_once_tx_context", "batch_runs_tx_complete"]
 
 TABLE_OBLIGATIONS = [
     "table_is_expected (Generated/CrudReturns.lean, regenerated from boltz/store_crud.go and boltz/store.go)",
